@@ -145,8 +145,8 @@ def check_float(fb, xb):
             out.append(("bin/tobinary/" + zc, "tobinary != float2bin for %r" % (x,)))
     # 3. mpf, in contexts of three working precisions (also below the dtype's precision)
     for c in ctxs():
-        if c.prec < f.p:
-            continue  # a context narrower than the float cannot hold it; outside the property's domain
+        # contexts narrower than the float are included: an mpf carries its own mantissa, float2mpf passes the float's
+        # precision explicitly and asserts exactness, so the value must be exact whatever the working precision is
         m = utils.float2mpf(c, x)
         t = m._mpf_
         if mpf_value(t) != exact or int(t[3]) != int(t[1]).bit_length():
@@ -159,6 +159,10 @@ def check_float(fb, xb):
             m2 = utils.number2mpf(c, x)
             if mpf_value(m2._mpf_) != exact:
                 out.append(("mpf/number2mpf/" + zc, "number2mpf(%r)=%r" % (x, m2)))
+            if c.prec < f.p:
+                # expansion / multiword decomposition does arithmetic in the context of its argument (subtracting the
+                # leading words); a context narrower than the float cannot carry those differences: outside the domain
+                continue
             # 4. expansion / multiword of a single float
             ex = utils.mpf2expansion(dtype, m)
             if fsum(ex) != exact or any(type(e) is not dtype for e in ex):
